@@ -1,5 +1,5 @@
 import Proofs.Lemmas.ParserUnique
-import FsicModel.Solver
+import Proofs.Lemmas.Solver
 /-
 C03 — Variable classification, ordering and lag/lead lengths match the script.
 
@@ -711,6 +711,16 @@ theorem default_range_is_solve_range {σ V : Type} (I : Interp σ V) (o : Opts) 
     (h0 : ¬ o.minIter > o.maxIter) (hn : n ≠ 0) (hl : lags < n) (hd : leads < n) :
     solve I o n lags leads none none w = solveList I o n (periodRange lags (n - 1 - leads)) w [] [] := by
   simp [solve, h0, hn, hl, hd, resolveBound]
+
+/-- The default range is also exactly the set of positions that `solve_t` itself accepts (its up-front feasibility
+    test, `Feasible` in M1): `solve()` never hands `solve_t` a period it would refuse, and skips none it would take. -/
+theorem default_range_is_accepted_periods {σ V : Type} (I : Interp σ V) (n t : Nat) (hleads : I.leads < n) :
+    t ∈ periodRange I.lags (n - 1 - I.leads) ↔ Feasible I n (t : Int) := by
+  rw [mem_periodRange]
+  unfold Feasible normT
+  have : ¬ ((t : Int) < 0) := by omega
+  simp only [this, if_false]
+  omega
 
 /-- Non-vacuity: `Z = Y[2]; Y = Z[-1] + X['a']` — Y is read with a lead before it is assigned and with nothing
     else, Z is read with a lag after being assigned; X only ever has a named-period index. -/
